@@ -5,14 +5,16 @@
    WalkObsReasons(obs) = {} (A layer of Walk.tla).  For every rejected line one JSON line
    {"i": line, "why": [violated clauses]} is printed; for every accepted line on which the walk
    omitted paths that only the lenient reading permits, {"i": line, "open": count} (information
-   for the design note, not a verdict).  The last line printed is <<"JUDGED", n>>.            *)
+   for the design note, not a verdict); then {"cover": [...]}, the union of the input-side
+   coverage tags (WalkCover), and finally <<"JUDGED", n>>.                                    *)
 EXTENDS Walk, Json
 
 Recs == ndJsonDeserialize("walk_obs.ndjson")
 
+\* one line per observation: verdict, lenient-latitude count, input-side coverage tags
 ASSUME \A i \in 1..Len(Recs) :
          LET j == WalkObsJudge(Recs[i].obs) IN
-         /\ j.why = {} \/ PrintT(ToJson([i |-> i, why |-> j.why]))
-         /\ (j.why # {} \/ j.open = 0) \/ PrintT(ToJson([i |-> i, open |-> j.open]))
+         PrintT(ToJson([i |-> i, verdict |-> j.why, open |-> IF j.why = {} THEN j.open ELSE 0,
+                        cover |-> WalkCover(Recs[i].obs, j)]))
 ASSUME PrintT(<<"JUDGED", Len(Recs)>>)
 =============================================================================
